@@ -24,7 +24,7 @@ THEOREMS = {
                             "bufinv_newNode", "bufinv_incRef", "bufinv_decRef_handle", "bufinv_addEdge", "bufinv_delEdge", "bufinv_upgradeDrop", "bufinv_collectCycles",
                             "onePass_frees_garbage", "collectCycles_terminates", "onePass_progress", "collect_dtor_once"]]
            + ["SodiumVerif.GcScript." + n for n in ["script_complete", "handles_exact", "no_garbage_after_collect", "drop_all_collect_frees_all"]]
-           + ["SodiumVerif.Struct." + n for n in ["run_reachable", "struct_gc_complete", "leakcheck_frees_all", "leakcheck_count_zero", "struct_oof", "d6_witness"]],
+           + ["SodiumVerif.Struct." + n for n in ["run_reachable", "struct_gc_complete", "leakcheck_frees_all", "leakcheck_count_zero", "struct_oof", "d6_witness", "reach_rewireAll", "reach_detachAll"]],
     "C09": [S + "fireTable_unique", S + "fire_rename'", S + "fireOf_rename'", S + "val_rename'", S + "val_run_rename'", S + "fireTrace_rename'", S + "WellRanked.rename'",
             S + "solution_extends", S + "fireTable_least", S + "gc_transparent", "SodiumVerif.Sched.transaction_result_unique", "SodiumVerif.Sched.sched_result_unique",
             G + "collect_sound_total"],
@@ -33,7 +33,7 @@ THEOREMS = {
     "C11": [S + n for n in ["fire_substLoop", "fireTrace_substLoop", "val_run_substLoop", "stepTxn_substLoop", "fire_substCLoop", "fireTrace_substCLoop_wf",
                             "val_run_substCLoop_wf", "sloop_fires", "cloop_fires'", "sloop_unclosed_silent", "cloop_value", "double_loop_panics", "sample_before_loop_panics", "stmt_sloopclose", "stmt_sample",
                             "holdz_fires", "holdz_resolves", "holdz_updated", "holdz_sticky", "holdz_unresolved", "holdz_pending"]],
-    "C12": [T + n for n in ["log_of_close", "log_of_close_flat", "prePost_before_post", "commit_before_deferred", "commit_precedes_deferred", "deferred_own_transaction",
+    "C12": [T + n for n in ["log_of_close_inert", "close_parts_contain_queues", "log_of_close", "log_of_close_flat", "prePost_before_post", "commit_before_deferred", "commit_precedes_deferred", "deferred_own_transaction",
                             "deferred_fifo", "post_immediate_when_idle", "phases_match", "hold_commit_queue", "once_detach_queue", "send_clear_queue", "defer_queue",
                             "public_post_opens_transaction"]]
            + [S + n for n in ["runOne_sp", "closeTxn_first_state", "closeTxn_queue", "depth_first", "posted_send_own_transaction", "posted_send_sends_irrel",
@@ -41,7 +41,7 @@ THEOREMS = {
     "C13": [S + n for n in ["mapc_eq_hold_map_updates", "mapc_eq_hold_map_updates_fresh", "cell_next_value", "cell_has_value", "lift_inv_mapc", "lift_inv_lift2", "lift_inv_liftn", "lift_inv_switchc", "lift_inv_cloop",
                             "mapc_inv_step", "lift2_inv_step"]],
     "C14": [T + n for n in ["leave_inner", "quiescent_after_close", "nested_close_transparent", "close_idempotent", "close_done", "close_fresh", "nesting_balanced",
-                            "bracket_eq_transaction", "empty_txn_silent", "scoped_close_once"]],
+                            "bracket_eq_transaction", "empty_txn_silent", "scoped_close_once", "leave_closed", "runPre_closed"]],
     "C15": [S + n for n in ["addSend_get_other", "sendMany_get", "send_fold", "send_last", "sendAll_get", "send_fold_interleaved", "send_last_interleaved",
                             "sendAll_get_untouched", "sink_fires", "val_stepTxn_csink"]],
     "C17": ["SodiumVerif.LazyM.thunk_at_most_once", "SodiumVerif.LazyM.run_stable", S + "taken_value", S + "stmt_force"],
